@@ -295,6 +295,15 @@ func (c11) Gen(r *kern.Rng, tier string, idx int) *Trace {
 		}
 	}
 	w.Ops = GenOps(r, w.Data.Len, r.Pick(20, 50, 100), 40)
+	if r.Pct(15) {
+		// a flush point a few bytes past a point where a 64 KiB / 32 KiB history wraps
+		n1 := r.Pick(65536, 65536, 98304, 131072, 32768) + r.Intn(16)
+		w.Data.Len = n1 + r.Pick(0, 10, 3000)
+		if r.Pct(50) {
+			w.Data.Kind = r.PickS("zeros", "alpha", "text", "rand")
+		}
+		w.Ops = []scen.WOp{{K: "w", N: n1}, {K: "f"}, {K: "w", N: w.Data.Len - n1}, {K: "c"}}
+	}
 	ps := &PipeScen{W: w, Enc: r.PickS("std", "fast"), StopAt: -1}
 	nflush := 0
 	for _, o := range w.Ops {
